@@ -458,6 +458,10 @@ func (s *programState) sendAllToAccount(accountLiteral parser.ValueExpr, ovedraf
 	sentAmt := new(big.Int).Add(balance, ovedraft)
 	// minus what the same account already gave earlier in this statement
 	sentAmt.Sub(sentAmt, s.alreadySentBy(*account))
+	// an account which is already below its allowance has nothing to give
+	if sentAmt.Sign() < 0 {
+		sentAmt.SetInt64(0)
+	}
 	s.pushSender(*account, sentAmt)
 	return sentAmt, nil
 }
@@ -548,6 +552,10 @@ func (s *programState) trySendingToAccount(accountLiteral parser.ValueExpr, amou
 		// minus what the same account already gave earlier in this statement
 		safeSendAmt.Sub(safeSendAmt, s.alreadySentBy(*account))
 		actuallySentAmt = utils.MinBigInt(safeSendAmt, amount)
+		// an account which is already below its allowance has nothing to give
+		if actuallySentAmt.Sign() < 0 {
+			actuallySentAmt.SetInt64(0)
+		}
 	}
 
 	s.pushSender(*account, actuallySentAmt)
